@@ -649,7 +649,7 @@ pub fn main(args: &util::Args) {
     if args.rest.first().map(|s| s.as_str()) == Some("inst") {
         // the instantiation-pair catalogue, one line per program: outcome and the conflicts found
         let dir = util::scratch_dir("c07i");
-        for (tag, src) in inst_pair_programs(args.seed) {
+        for (tag, src) in inst_pair_programs(args.seed).into_iter().chain(inst_struct_programs(args.seed)) {
             let st = run_in(&dir, &src);
             let outcome = match &st.stop {
                 None => "ok".to_string(),
@@ -812,6 +812,21 @@ pub fn main(args: &util::Args) {
         let mut out = String::new();
         emit(&id, Some(&src), &st, &mut out);
         sink.put(&out);
+    }
+    // ---- stream 6b: structural instantiation groups — the same containers and positions, the leaves of one group all in
+    // ONE program: regrouped tuples (every bracketing of 3 and 4 components), a type constructor application next to user
+    // structs / enums NAMED like the real encoders' spellings of that application
+    for (tag, src) in inst_struct_programs(args.seed) {
+        let id = format!("inst:{}", tag);
+        sink.begin(&id);
+        let st = run_in(&dir, &src);
+        let mut out = String::new();
+        emit(&id, Some(&src), &st, &mut out);
+        sink.put(&out);
+    }
+    for g in SGROUPS {
+        let (leaves, derived) = sgroup_leaves(g);
+        sink.put(&format!("#SGROUP\t{}\t{}\t{}\n", g, leaves.iter().map(|l| l.src.clone()).collect::<Vec<_>>().join(" | "), derived.join(" ")));
     }
     // ---- stream 7: request routes x signature shapes — ONE instantiation of a generic function / method asked for
     // through two (or all) of the ways a program can ask for it, in both orders; exactly two instances must result
@@ -1044,6 +1059,176 @@ pub fn inst_pair_programs(seed: u64) -> Vec<(String, String)> {
             }
             let src = format!("{}{}fn main() -> unit {{\n{}  let _ = {};\n  let _ = {};\n  {}\n}}\n", PRELUDE, LIB, body, shows[0], shows[1], shows[2]);
             out.push((format!("{}:{}:{}-{}", gt, pt, INST_LEAVES[i1].0, INST_LEAVES[i2].0), src));
+        }
+    }
+    out
+}
+
+// ---------------------------------------------------------------- structural instantiation groups (`inst:S:`)
+
+/// one leaf of a structural group: a type, an expression of that type, the user declarations it needs
+#[derive(Clone)]
+pub struct SLeaf {
+    pub src: String,
+    pub val: String,
+    pub decls: Vec<String>,
+}
+
+/// every way of bracketing `n` components into a tuple type whose nested tuples have at least two components
+/// (`(a,b,c)`, `((a,b),c)`, `(a,(b,c))` for 3; 11 for 4): (type text, value text); the k-th component is the
+/// int32 literal k.
+fn bracketings(lo: usize, n: usize) -> Vec<(String, String)> {
+    if n == 1 {
+        return vec![("int32".to_string(), format!("{}", lo + 1))];
+    }
+    // sequences of blocks covering lo..lo+n; `first`: the sequence must have at least two blocks
+    fn seqs(lo: usize, n: usize, first: bool) -> Vec<Vec<(String, String)>> {
+        if n == 0 {
+            return vec![vec![]];
+        }
+        let mut out = Vec::new();
+        for k in 1..=n {
+            if first && k == n {
+                continue;
+            }
+            for head in bracketings(lo, k) {
+                for mut rest in seqs(lo + k, n - k, false) {
+                    let mut v = vec![head.clone()];
+                    v.append(&mut rest);
+                    out.push(v);
+                }
+            }
+        }
+        out
+    }
+    seqs(lo, n, true)
+        .into_iter()
+        .map(|blocks| {
+            let t = blocks.iter().map(|b| b.0.clone()).collect::<Vec<_>>().join(", ");
+            let v = blocks.iter().map(|b| b.1.clone()).collect::<Vec<_>>().join(", ");
+            (format!("({})", t), format!("({})", v))
+        })
+        .collect()
+}
+
+/// declarations of the fixed user types of the structural groups
+fn sdecl(name: &str) -> String {
+    match name {
+        "A" => "struct A { f: int32 }\n".to_string(),
+        "P" => "struct P[T] { p: T }\n".to_string(),
+        "O" => "enum O[T] { OS(T), ON }\n".to_string(),
+        "Q" => "struct Q[X, Y] { x: X, y: Y }\n".to_string(),
+        _ => String::new(),
+    }
+}
+
+pub const SGROUPS: &[&str] = &["tuples", "apps/struct", "apps/enum", "builtins/struct", "builtins/enum", "fn-tuple/struct", "fn-tuple/enum"];
+
+/// the leaves of one structural group.  `tuples`: every bracketing of 3 and of 4 components.  The others: type
+/// constructor applications over the atoms `A` (a struct) and `int32`, next to one user-declared struct / enum
+/// for every spelling the REAL encoders of the compiler (`encode_ty`, `go_type_name_for`, `ty_compact`,
+/// `go_ident ∘ ty_compact`) give that application, read at run time — whatever spelling instance names are
+/// built from, a user type called like its output for an application is next to that application.
+pub fn sgroup_leaves(group: &str) -> (Vec<SLeaf>, Vec<String>) {
+    use compiler::tast::Ty as T;
+    if group == "tuples" {
+        let mut v = Vec::new();
+        for n in [3usize, 4] {
+            for (t, e) in bracketings(0, n) {
+                v.push(SLeaf { src: t, val: e, decls: vec![] });
+            }
+        }
+        return (v, vec![]);
+    }
+    let (fam, kind) = group.split_once('/').unwrap();
+    let st = |n: &str| T::TStruct { name: n.to_string() };
+    // atoms: (text, tast type, value, declarations)
+    let atoms: [(&str, T, &str, Vec<&str>); 2] = [("A", st("A"), "A { f: 1 }", vec!["A"]), ("int32", T::TInt32, "2", vec![])];
+    let mut forms: Vec<(String, T, String, Vec<&str>)> = Vec::new();
+    for (at, aty, av, ad) in atoms.iter() {
+        let with = |extra: &[&'static str]| -> Vec<&str> { ad.iter().copied().chain(extra.iter().copied()).collect() };
+        let b = |t: &T| Box::new(t.clone());
+        match fam {
+            "apps" => {
+                forms.push((format!("P[{at}]"), T::TApp { ty: b(&st("P")), args: vec![aty.clone()] }, format!("P {{ p: {av} }}"), with(&["P"])));
+                forms.push((format!("O[{at}]"), T::TApp { ty: b(&T::TEnum { name: "O".into() }), args: vec![aty.clone()] }, format!("O::OS({av})"), with(&["O"])));
+                forms.push((format!("Q[{at}, int32]"), T::TApp { ty: b(&st("Q")), args: vec![aty.clone(), T::TInt32] }, format!("Q {{ x: {av}, y: 3 }}"), with(&["Q"])));
+            }
+            "builtins" => {
+                forms.push((format!("Vec[{at}]"), T::TVec { elem: b(aty) }, format!("vec_push(vec_new(), {av})"), with(&[])));
+                forms.push((format!("Ref[{at}]"), T::TRef { elem: b(aty) }, format!("ref({av})"), with(&[])));
+                forms.push((format!("[{at}; 2]"), T::TArray { len: 2, elem: b(aty) }, format!("[{av}, {av}]"), with(&[])));
+            }
+            _ => {
+                forms.push((format!("({at}) -> {at}"), T::TFunc { params: vec![aty.clone()], ret_ty: b(aty) }, format!("|q: {at}| q"), with(&[])));
+                forms.push((format!("({at}, int32)"), T::TTuple { typs: vec![aty.clone(), T::TInt32] }, format!("({av}, 3)"), with(&[])));
+            }
+        }
+    }
+    let taken: std::collections::BTreeSet<&str> = ["Opt", "Lst", "Bx", "Pr", "idg", "pick", "opt_or", "llen", "twice", "konst", "unbx", "lhead", "pfst", "psnd", "fst", "main", "A", "P", "O", "Q", "Vec", "Ref", "Som", "Non", "Nil", "Cons", "OS", "ON"]
+        .into_iter()
+        .chain(crate::c19univ::PRIM_WORDS.iter().copied())
+        .collect();
+    let mut leaves = Vec::new();
+    let mut derived: Vec<String> = Vec::new();
+    for (src, ty, val, decls) in forms {
+        leaves.push(SLeaf { src, val, decls: decls.iter().map(|d| sdecl(d)).collect() });
+        for s in crate::c19univ::real_spellings(&ty) {
+            if crate::c19univ::is_ident(&s) && !taken.contains(s.as_str()) && !derived.contains(&s) {
+                derived.push(s);
+            }
+        }
+    }
+    for (j, n) in derived.iter().enumerate() {
+        let (decl, val) = if kind == "enum" { (format!("enum {n} {{ U{j}, W{j}(int32) }}\n"), format!("{n}::U{j}")) } else { (format!("struct {n} {{ f: int32 }}\n"), format!("{n} {{ f: {j} }}")) };
+        leaves.push(SLeaf { src: n.clone(), val, decls: vec![decl] });
+    }
+    (leaves, derived)
+}
+
+/// every container x every position of `inst:`, with the leaves of ONE structural group (the group rotates with the
+/// seed and the case number): `G[P(l)]` for every leaf `l` of the group in one program, built, passed through a generic
+/// function, taken apart again; the first one requested once more at the end
+pub fn inst_struct_programs(seed: u64) -> Vec<(String, String)> {
+    const LIB: &str = "struct Pr[A, B] { a: A, b: B }\n\
+        fn unbx[T](b: Bx[T]) -> T { b.v }\n\
+        fn lhead[T](l: Lst[T], d: T) -> T { match l { Lst::Cons(x, _) => x, Lst::Nil => d } }\n\
+        fn pfst[A, B](p: Pr[A, B]) -> A { p.a }\n\
+        fn psnd[A, B](p: Pr[A, B]) -> B { p.b }\n\
+        fn fst[A, B](p: (A, B)) -> A { p.0 }\n";
+    let groups: Vec<(Vec<SLeaf>, Vec<String>)> = SGROUPS.iter().map(|g| sgroup_leaves(g)).collect();
+    let mut out = Vec::new();
+    let mut n = 0usize;
+    for (gt, gty, gval, gget) in INST_CONTAINERS {
+        for (pt, pty, pval, pget) in INST_POSITIONS {
+            let gi = (seed as usize + n) % SGROUPS.len();
+            n += 1;
+            let (leaves, _) = &groups[gi];
+            let mut decls: Vec<String> = Vec::new();
+            let mut body = String::new();
+            for (k, lf) in leaves.iter().enumerate() {
+                for d in &lf.decls {
+                    if !decls.contains(d) {
+                        decls.push(d.clone());
+                    }
+                }
+                let lt = &lf.src;
+                let v = format!("v{k}");
+                let xt = pty.replace("{T}", lt);
+                let gt_full = gty.replace("{X}", &xt);
+                let (x, g, h, y) = (format!("x{k}"), format!("g{k}"), format!("h{k}"), format!("y{k}"));
+                writeln!(body, "  let {v}: {lt} = {};", lf.val).unwrap();
+                writeln!(body, "  let {x}: {xt} = {};", pval.replace("{T}", lt).replace("{V}", &v)).unwrap();
+                writeln!(body, "  let {g}: {gt_full} = {};", gval.replace("{x}", &x)).unwrap();
+                writeln!(body, "  let {h}: {gt_full} = idg({g});").unwrap();
+                writeln!(body, "  let {y}: {xt} = {};", gget.replace("{h}", &h).replace("{x}", &x)).unwrap();
+                writeln!(body, "  let z{k}: {lt} = {};", pget.replace("{T}", lt).replace("{V}", &v).replace("{E}", &y)).unwrap();
+            }
+            let xt0 = pty.replace("{T}", &leaves[0].src);
+            writeln!(body, "  let hr: {} = pick(true, g0, h0);", gty.replace("{X}", &xt0)).unwrap();
+            writeln!(body, "  let yr: {xt0} = {};", gget.replace("{h}", "hr").replace("{x}", "x0")).unwrap();
+            let src = format!("{}{}{}fn main() -> unit {{\n{}  string_println(\"end\")\n}}\n", PRELUDE, LIB, decls.concat(), body);
+            out.push((format!("S:{}:{}:{}", gt, pt, SGROUPS[gi]), src));
         }
     }
     out
